@@ -872,7 +872,7 @@ class SampleSet(abc.Iterable, abc.Sized):
             >>> sampleset = dimod.SampleSet.from_samples_cqm({'x': 0, 'y': 1, 'z': 1}, cqm)
 
         """
-        if len(samples_like) == 0:
+        if not isinstance(samples_like, abc.Mapping) and len(samples_like) == 0:
             return cls.from_samples(([], cqm.variables),
                                     energy=[],
                                     vartype='INTEGER',
